@@ -137,6 +137,39 @@ def api_of(cls, kind, repo_root):
     return out
 
 
+def merge_summary(cls, repo_root):
+    """What the in-place merge `_update` (every load goes through it) does with the collection's
+    own API: the public mutators it calls on `self` and the contexts it enters.  A merge that calls
+    a public mutator enters that mutator's load-and-save context, i.e. takes the thread lock."""
+    func = None
+    for base in cls.__mro__:
+        if "_update" in vars(base):
+            func = vars(base)["_update"]
+            break
+    calls, ctxs = [], []
+    if func is None:
+        return ["<no _update>"], ctxs
+    try:
+        tree = ast.parse(textwrap.dedent(inspect.getsource(func))).body[0]
+    except (OSError, TypeError, IndexError, SyntaxError):
+        return ["<no source>"], ctxs
+    public = set(MUTATING_ABC["dict"] + MUTATING_ABC["list"] + ["reset"])
+    for node in ast.walk(tree):
+        if isinstance(node, ast.Call) and isinstance(node.func, ast.Attribute) and \
+                isinstance(node.func.value, ast.Name) and node.func.value.id == "self" and node.func.attr in public:
+            calls.append(node.func.attr)
+        if isinstance(node, ast.With):
+            for item in node.items:
+                e = item.context_expr
+                if isinstance(e, ast.Call):
+                    e = e.func
+                if isinstance(e, ast.Attribute) and isinstance(e.value, ast.Name) and e.value.id == "self":
+                    ctxs.append(CTX_NAMES.get(e.attr, "(.unknown %s)" % lstr(e.attr)))
+                else:
+                    ctxs.append("(.unknown %s)" % lstr(ast.dump(e)[:40]))
+    return sorted(set(calls)), ctxs
+
+
 def emit_summary(s):
     if s is None:
         return "none"
@@ -243,12 +276,14 @@ def generate():
                 cls_entries.append(
                     "  { name := %s, isDict := %s, validators := %s, supportsThreading := %s,\n"
                     "    attrAccess := %s, protectedKeys := %s,\n    instAttrs := %s,\n    classAttrs := %s,\n"
-                    "    childDict := %s, childList := %s, childDictForeign := %s, childListForeign := %s,\n    api := %s }" % (
+                    "    childDict := %s, childList := %s, childDictForeign := %s, childListForeign := %s,\n    api := %s,\n"
+                    "    mergeCalls := %s, mergeCtxs := %s }" % (
                         lstr(cls.__name__), lbool(is_dict), llist(validators_of(cls)),
                         lbool(bool(cls._supports_threading)), lbool(is_attr),
                         llist([lstr(k) for k in protected]), llist([lstr(k) for k in inst_attrs]),
                         llist([lstr(k) for k in sorted(dir(cls))]),
-                        lstr(child_d), lstr(child_l), lstr(child_df), lstr(child_lf), api_l))
+                        lstr(child_d), lstr(child_l), lstr(child_df), lstr(child_lf), api_l,
+                        llist([lstr(c) for c in merge_summary(cls, repo_root)[0]]), llist(merge_summary(cls, repo_root)[1])))
             store = {"json": ".json", "redis": ".redis", "mongo": ".mongo", "zarr": ".zarr"}.get(fam.store, ".unknownStore")
             buf = {None: ".none", "serialized": ".serialized", "memory": ".sharedMemory"}[fam.buffered]
             nm = "fam%d" % fam.index
